@@ -38,13 +38,17 @@ add('C03', "TLC evaluates PegSem!Parse (seed growing with a dynamic head, docs/l
     "left-recursive alternative, cycles entered after an optional / closure prefix) "
     "under all 24 assignments of rule names x every operator/operand string up to the bound; every outcome (accept/reject, end, left-nested AST) "
     "is replayed into the real model under recursion-limit and wall-clock guards (RecursionError/timeout = violation). Exhaustive within bounds. "
-    "Recorded traces of the real engine (seed hits, growth rounds, memo guards) are validated by TLC against PegTrace/PegMachine.",
+    "Recorded traces of the real engine (seed hits, growth rounds, memo guards) are validated by TLC against PegTrace/PegMachine, and PegMachine "
+    "itself is model-checked on a slice of the families under every memo schedule (Refines outside KF-C03-1, FramesBalanced, StepBound); the machine "
+    "must equal the engine on every case.",
     "Trusted: TLC, projections. KF-C03-1 (static leader) is recognised by family + name order + direction of the mismatch.",
     "TLA+ spec PegSem (left-recursion seeds) evaluated by TLC, exhaustive family universe, spec->code replay; recorded traces validated against PegTrace/PegMachine", "5 C03, 3.3, 3.5")
 add('C05', "18 skeletons x a cut inserted at every position of every sequence x every text up to the bound: TLC evaluates PegSem!Parse, whose cut scopes "
     "are exactly the docs' equivalences (A->[x] == B->x|e, {x} == B->xB|e, join == e {s ~ e}); each outcome is replayed into the real parser. "
     "A lost or leaked cut flag changes accept/reject or the end position of some enumerated case. Exhaustive within bounds. "
-    "Recorded traces (cut events included) of the real engine are validated by TLC against PegTrace/PegMachine.",
+    "Recorded traces (cut events included) of the real engine are validated by TLC against PegTrace/PegMachine; PegMachine is model-checked on a "
+    "third of the placements under every memo schedule with pruning on and off: CutContained (only the top frame, or the option frame under an "
+    "isolate frame, ever changes its cut flag), FramesBalanced, Refines; the machine must equal the engine on every case.",
     "Trusted: TLC, projections. Groups are treated as transparent for cuts (as C05 lists the scopes).",
     "TLA+ spec PegSem (cut scopes) evaluated by TLC, exhaustive cut-placement universe, spec->code replay; recorded traces validated against PegTrace/PegMachine", "5 C05, 3.3, 3.5")
 
